@@ -89,9 +89,9 @@ pub fn show_response(r: &Response<Resp>) -> String {
     }
 }
 
-pub fn make_ctx(deadline_ns: u64, tid: u128, span: u64, sampled: bool) -> context::Context {
+pub fn make_ctx(deadline_ns: u128, tid: u128, span: u64, sampled: bool) -> context::Context {
     let mut ctx = context::current();
-    ctx.deadline = base() + Duration::from_nanos(deadline_ns);
+    ctx.deadline = base() + Duration::new((deadline_ns / 1_000_000_000) as u64, (deadline_ns % 1_000_000_000) as u32);
     ctx.trace_context = trace::Context {
         trace_id: trace::TraceId::from(tid),
         span_id: trace::SpanId::from(span),
@@ -160,6 +160,8 @@ fn panic_site(p: &(dyn std::any::Any + Send)) -> String {
         "deadlines.remove: invalid key".into()
     } else if msg.contains("overflow when adding duration to instant") {
         "Instant + Duration overflow".into()
+    } else if msg.contains("a formatting trait implementation returned an error") {
+        "span field formatting failed".into()
     } else {
         format!("other: {}", msg.replace(' ', "_"))
     }
@@ -240,8 +242,22 @@ impl Client {
         }
         let slot = &mut self.calls[c];
         slot.fw.flag.store(false, Ordering::SeqCst);
-        let mut cx = Context::from_waker(&slot.waker);
-        let r = slot.fut.as_mut().unwrap().as_mut().poll(&mut cx);
+        let waker = slot.waker.clone();
+        let fut = slot.fut.as_mut().unwrap();
+        let r = catch_unwind(AssertUnwindSafe(|| {
+            let mut cx = Context::from_waker(&waker);
+            fut.as_mut().poll(&mut cx)
+        }));
+        let r = match r {
+            Ok(r) => r,
+            Err(p) => {
+                // the call panicked in the caller's task: the future is gone (leaked: its state may be inconsistent)
+                log(format!("panic c{c} {}", panic_site(&*p)));
+                slot.fw.live.store(false, Ordering::SeqCst);
+                std::mem::forget(slot.fut.take());
+                return;
+            }
+        };
         match r {
             Poll::Pending => log(format!("ret c{c} pending")),
             Poll::Ready(res) => {
@@ -408,7 +424,7 @@ impl Client {
 
 #[derive(Clone, Debug)]
 pub enum Op {
-    Call { h: u64, d: u64, tid: u128, span: u64, sampled: bool, body: u64 },
+    Call { h: u64, d: u128, tid: u128, span: u64, sampled: bool, body: u64 },
     PollCall(usize),
     DropCall(usize, Option<&'static str>),
     Clone(u64),
@@ -540,13 +556,35 @@ pub struct Params {
     pub extreme: bool,
     /// deadlines days to months away, with clock steps that reach them
     pub long: bool,
+    /// tracing subscriber installed while the script runs: 0 none, 1 formatting, 2 OpenTelemetry
+    pub sub: u8,
+}
+
+/// `--sub=` of a generating run (0 none, 1 formatting, 2 OpenTelemetry).
+pub static GEN_SUB: std::sync::atomic::AtomicU8 = std::sync::atomic::AtomicU8::new(0);
+
+/// Installs the tracing subscriber a script asks for (for the current thread, until the guard is dropped).
+pub fn install_subscriber(sub: u8) -> Option<tracing::subscriber::DefaultGuard> {
+    use opentelemetry::trace::TracerProvider as _;
+    use tracing_subscriber::layer::SubscriberExt;
+    match sub {
+        1 => Some(tracing::subscriber::set_default(
+            tracing_subscriber::fmt().with_max_level(tracing::Level::TRACE).with_writer(std::io::sink).finish(),
+        )),
+        2 => {
+            let provider = opentelemetry_sdk::trace::TracerProvider::builder().build();
+            let layer = tracing_opentelemetry::layer().with_tracer(provider.tracer("verif"));
+            Some(tracing::subscriber::set_default(tracing_subscriber::Registry::default().with(layer)))
+        }
+        _ => None,
+    }
 }
 
 impl Params {
     pub fn header(&self) -> String {
         format!(
-            "max={} buf={} cap={} coupled={} wo={} faults={} extreme={} long={}",
-            self.max, self.buf, self.cap, self.coupled as u8, self.wo as u8, self.faults as u8, self.extreme as u8, self.long as u8
+            "max={} buf={} cap={} coupled={} wo={} faults={} extreme={} long={} sub={}",
+            self.max, self.buf, self.cap, self.coupled as u8, self.wo as u8, self.faults as u8, self.extreme as u8, self.long as u8, self.sub
         )
     }
     pub fn from_header(h: &str) -> Params {
@@ -560,6 +598,7 @@ impl Params {
             faults: g("faults", 0) == 1,
             extreme: g("extreme", 0) == 1,
             long: g("long", 0) == 1,
+            sub: g("sub", 0) as u8,
         }
     }
 }
@@ -618,6 +657,17 @@ pub fn new_runtime() -> tokio::runtime::Runtime {
         .unwrap()
 }
 
+/// Deadlines (ns from the start of the script) for `extreme=1`: 2.2, 10 and 100 years (beyond the timer wheel's
+/// 2^36 ms), 2^38 s (~8700 years: past year 9999 on the wall clock), and 2^63 − 2^33 s (wall-clock arithmetic
+/// on it overflows `SystemTime`).
+pub const EXTREME_DEADLINES_NS: [u128; 5] = [
+    70_000_000_000_000_000,
+    315_360_000_000_000_000,
+    3_153_600_000_000_000_000,
+    (1u128 << 38) * 1_000_000_000,
+    ((1u128 << 63) - (1u128 << 33)) * 1_000_000_000,
+];
+
 /// Generator state: what the "peer" knows (requests seen on the wire) and what exists.
 struct Gen {
     sent_ids: Vec<u64>,
@@ -669,9 +719,9 @@ fn gen_op(rng: &mut Rng, cl: &Client, g: &mut Gen, p: &Params) -> Op {
             g.deadlines.push(d); // (clock steps aim at ordinary deadlines only: virtual time stays below a year)
             // decades away: beyond the timer wheel's range (2^36 ms) unless the armed timeout is clamped
             let d = if p.extreme && rng.chance(1, 3) {
-                g.now + *rng.pick(&[70_000_000_000_000_000u64, 315_360_000_000_000_000, 3_153_600_000_000_000_000]) + g.ncalls * 2_000_000
+                (g.now + g.ncalls * 2_000_000) as u128 + *rng.pick(&EXTREME_DEADLINES_NS)
             } else {
-                d
+                d as u128
             };
             Op::Call {
                 h: *rng.pick(&handles),
@@ -755,6 +805,7 @@ pub fn run_script(out: &mut Out, idx: u64, p: &Params, rng: &mut Rng, script: Op
     let _g = rt.enter();
     BASE.with(|b| *b.borrow_mut() = Some(tarpc::verif_hooks::now()));
     simt::take_log();
+    let _sub = install_subscriber(p.sub);
     let mut cl = Client::new("d0", p.max, p.buf, p.cap, p.coupled);
     let mut g = Gen { sent_ids: vec![], answered: vec![], now: 0, deadlines: vec![], ncalls: 0 };
     let mut i = 0usize;
@@ -808,6 +859,7 @@ pub fn generate(out: &mut Out, seed: u64, scripts: u64, len: usize, wo: bool, fa
             faults,
             extreme,
             long,
+            sub: GEN_SUB.load(Ordering::SeqCst),
         };
         run_script(out, idx, &p, &mut rng, None, len);
     }
